@@ -1187,9 +1187,17 @@ R"(
         now = _now;     // can not ```return now = ...;``` in debug
         return _now;    // mode because ```now``` is a volatile variable
     }
+#ifdef PHOTON_VERIF_SIM
+    // verification hook: the TSC decides whether photon::now is refreshed, i.e.
+    // it is a clock; under deterministic simulation it reads the simulated clock.
+    extern "C" uint32_t photon_verif_rdtsc();
+#endif
     __attribute__((always_inline))
     static inline uint32_t _rdtsc()
     {
+#ifdef PHOTON_VERIF_SIM
+        return photon_verif_rdtsc();
+#endif
     #if defined(__x86_64__)
         uint32_t low, hi;
         asm volatile(
